@@ -31,7 +31,8 @@ def templates():
     lines = "".join("  [T0.%d]\n" % i for i in range(2))
     out.append({"name": "choose", "justfile": sh + "r0:\n" + lines, "argv": ["--choose", "--chooser", "CHOOSER"],
                 "plan_extra": "CHOOSER=out:" + C.hexs("r0\n"),
-                "cmds": [("[T0.0]", False), ("[T0.1]", False)]})
+                # (the chooser is a command like the others since it is run through the signal handler, 20b33cb)
+                "cmds": [("CHOOSER", False), ("[T0.0]", False), ("[T0.1]", False)]})
     out.append({"name": "command", "justfile": sh + "a00 := `[B0]`\n\nr0:\n  [T0.0]\n",
                 "argv": ["--command", C.VSH, "-c", "[C0]"], "cmds": [("[B0]", False), ("[C0]", False)]})
     out.append({"name": "evaluate", "justfile": sh + "a00 := `[B0]`\na01 := `[B1]`\n\nr0:\n  [T0.0]\n",
@@ -119,7 +120,7 @@ def run_schedule(t, s):
                     os.kill(p.pid, SIGS[s["sig"]])
                     if not wait_for(lambda: os.path.exists(marker) and os.path.getsize(marker) > 0):
                         problem = "signal was not processed by the handler (no marker)"
-                    entries = [e for e in C.read_vsh_log(logp) if e["argv"][1:] != ["-c", "CHOOSER"]]
+                    entries = C.read_vsh_log(logp)
                     child = entries[-1]["pid"] if entries else None
                     if s["reaction"] == "dies" and s["sig"] != "term" and child:
                         try:
@@ -143,7 +144,7 @@ def run_schedule(t, s):
         finally:
             if p.poll() is None:
                 p.kill()
-        entries = [e for e in C.read_vsh_log(logp) if e["argv"][1:] != ["-c", "CHOOSER"]]
+        entries = C.read_vsh_log(logp)
         spawned = []
         for e in entries:
             if e["script"] is not None:
@@ -177,10 +178,86 @@ def expected(t, s):
     return {"exit": code, "spawned": keys[:s["k"] + 1]}
 
 
+def probe_unguarded_child(kind):
+    """The chooser of --choose and the editor of --edit are commands just starts: a SIGTERM that arrives while one runs must
+    not make just exit before it has ended (and must be forwarded).  Returns None or (signature, what, replay)."""
+    import signal
+    import time
+    with C.scratch("c13u") as d:
+        gate = os.path.join(d, "gate")
+        rep = os.path.join(d, "rep")
+        sh = 'set shell := ["%s", "-c"]\n' % C.VSH
+        env = dict(C.BASE_ENV)
+        env.update({"HOME": d, "TMPDIR": d, "VSH_LOG": os.path.join(d, "vsh.log")})
+        if kind == "choose":
+            text = sh + "r0:\n  [T0.0]\n"
+            argv = ["--choose", "--chooser", "CHOOSER"]
+            env["VSH_PLAN"] = "CHOOSER=trap:15,block:%s,report:%s,out:%s" % (gate, rep, C.hexs("r0\n"))
+        else:
+            text = sh + "# [ED]\nr0:\n  [T0.0]\n"
+            argv = ["--edit"]
+            env["VISUAL"] = C.VSH
+            env["VSH_PLAN"] = "[ED]=trap:15,block:%s,report:%s" % (gate, rep)
+        open(os.path.join(d, "justfile"), "w").write(text)
+        p = subprocess.Popen([C.JUST] + argv, cwd=d, env=env, stdin=subprocess.DEVNULL, stdout=subprocess.PIPE, stderr=subprocess.PIPE)
+        t0 = time.time()
+        while not os.path.exists(gate + ".started") and time.time() - t0 < 10 and p.poll() is None:
+            time.sleep(0.005)
+        if not os.path.exists(gate + ".started"):
+            p.kill()
+            return ("c13-probe-broken:%s" % kind, "the %s child did not start" % kind, {"kind": kind})
+        p.send_signal(signal.SIGTERM)
+        t1 = time.time()
+        while p.poll() is None and time.time() - t1 < 1.0:
+            time.sleep(0.01)
+        early = p.poll() is not None          # just is gone although its child still waits at the gate
+        open(gate, "w").close()
+        try:
+            p.wait(timeout=10)
+        except subprocess.TimeoutExpired:
+            p.kill()
+        time.sleep(0.05)
+        forwarded = os.path.exists(rep) and "15" in open(rep).read().split()
+        replay = {"kind": kind, "justfile": text, "argv": argv, "observed": {"exited_while_child_ran": early, "sigterm_forwarded": forwarded,
+                                                                                "exit": p.returncode}}
+        if early:
+            return ("c13-orphan:%s" % kind, "just exited on SIGTERM while the %s it had started was still running" % kind, replay)
+        if not forwarded:
+            return ("c13-term-not-forwarded:%s" % kind, "SIGTERM was not forwarded to the running %s" % kind, replay)
+        return None
+
+
+def probe_signal_race(n):
+    """A signal that arrives just before the running command ends (`kill -TERM $PPID` as the command itself) must still stop
+    the run.  Statistical: the window is well under a millisecond.  Returns None or (signature, what, replay)."""
+    with C.scratch("c13r") as d:
+        text = "r:\n    @kill -TERM $PPID\n    @echo SECOND-LINE-RAN\n"
+        open(os.path.join(d, "justfile"), "w").write(text)
+        env = dict(C.BASE_ENV)
+        env.update({"HOME": d, "TMPDIR": d})
+        bad = []
+        for i in range(n):
+            p = subprocess.run([C.JUST, "--shell", "/bin/sh", "--shell-arg", "-cu", "r"], cwd=d, env=env, stdin=subprocess.DEVNULL,
+                               stdout=subprocess.PIPE, stderr=subprocess.PIPE)
+            if b"SECOND-LINE-RAN" in p.stdout or p.returncode == 0:
+                bad.append({"run": i, "exit": p.returncode, "second_line_ran": b"SECOND-LINE-RAN" in p.stdout})
+        if bad:
+            return ("c13-signal-just-before-command-ends", "a SIGTERM delivered just before the running command ended was missed in %d of %d runs: "
+                    "the next line ran" % (len(bad), n), {"justfile": text, "argv": ["r"], "runs": n, "missed": bad[:5]})
+        return None
+
+
 def run(report):
     tier = report.tier
     just, bt = C.build_just()
     C.proof_stage(report, "C13", thorough=(tier == "thorough"))
+    for kind in ("choose", "edit"):
+        f = probe_unguarded_child(kind)
+        if f:
+            report.failure(f[0], f[1], f[2])
+    f = probe_signal_race(150 if tier == "quick" else 1500)
+    if f:
+        report.failure(f[0], f[1], f[2])
     drv = C.Driver()
     tmpl = {t["name"]: t for t in templates()}
     scheds = schedules(tier)
